@@ -550,6 +550,11 @@ func (r *RIB) addEntryInternal(ni string, op *spb.AFTOperation, oks, fails *[]*O
 
 	switch {
 	case opErr != nil:
+		// This operation can never be installed: if it was pending make sure that it
+		// is not retried (and reported as failed) again, neither by a later operation
+		// nor further up this stack.
+		r.rmPendingOp(op)
+		installStack[op.GetId()] = true
 		*fails = append(*fails, &OpResult{
 			ID:    op.GetId(),
 			Op:    op,
@@ -899,6 +904,16 @@ func (r *RIB) rmPending(id uint64) {
 	r.pendMu.Lock()
 	defer r.pendMu.Unlock()
 	delete(r.pendingEntries, id)
+}
+
+// rmPendingOp removes op from the RIB's pendingEntries if it is the operation
+// that is pending under its ID.
+func (r *RIB) rmPendingOp(op *spb.AFTOperation) {
+	r.pendMu.Lock()
+	defer r.pendMu.Unlock()
+	if e, ok := r.pendingEntries[op.GetId()]; ok && e.op == op {
+		delete(r.pendingEntries, op.GetId())
+	}
 }
 
 // canResolve takes an input candidate RIB, which contains only the new entry
